@@ -215,7 +215,12 @@ def check(chk: Check) -> None:
         for p in SymExec(F, fi_).run():
             if p.outcome[0] != 'raise' or not p.assumptions:
                 continue
-            c_, v_, _ = p.assumptions[-1]
+            # the last decision taken before the raise (the host's logging level - `if logger.isEnabledFor(...)` - is not one)
+            decisions_ = [a_ for a_ in p.assumptions if not (isinstance(freeze(a_[0]), tuple) and freeze(a_[0])[:1] == ('unknown',)
+                                                             and str(freeze(a_[0])[1]).startswith('logging-level'))]
+            if not decisions_:
+                continue
+            c_, v_, _ = decisions_[-1]
             def is_len_test(c):
                 return isinstance(c, tuple) and c[:1] == ('cmp',) and c[1] in ('>=', '>', '<', '<=') and \
                     any(isinstance(x, tuple) and x[:2] == ('pcall', 'len') for x in c[2:4]) and \
